@@ -47,11 +47,22 @@ class Timeout(Exception):
     pass
 
 
+class TooManySuspects(Exception):
+    """Four watchdog expiries in one shard: stop the workload and confirm them in isolation."""
+
+
+LAST_STACK = []
+
+
 def _alarm(signum, frame):
+    import traceback
+
+    LAST_STACK[:] = ["%s:%s" % (fs.filename, fs.name) for fs in traceback.extract_stack(frame)][-6:]
     raise Timeout()
 
 
-def guarded(fn, seconds=20):
+def guarded(fn, seconds=None):
+    seconds = seconds or int(os.environ.get("VERIF_C06_WATCHDOG", "20"))
     old = signal.signal(signal.SIGALRM, _alarm)
     signal.alarm(seconds)
     try:
@@ -91,6 +102,8 @@ def classify(ctx, o, family, boundary, case):
     if isinstance(o.exc, Timeout):
         ctx.count("watchdog_expired")
         SUSPECTS.append(case)
+        if len(SUSPECTS) >= 4:
+            raise TooManySuspects()
         return False
     if isinstance(o.exc, RecursionError) and case.get("deep"):
         return False
@@ -260,7 +273,29 @@ DIRECTED_QUERIES = [
 ]
 
 
+def long_unterminated():
+    """Unterminated quotes, regexes and brackets followed by long runs (bounded progress on the
+    library's own lexer rules; typical cost is microseconds)."""
+    out = []
+    for n in (30, 60, 200):
+        run = ("abc def_" * 40)[:n]
+        out += ["$[\"" + run, "$['" + run, "$[?@.a == \"" + run, "$[?@.a == '" + run + "]", "$.it's_" + run.replace(" ", "_"), "$[?@.a =~ /" + run, "$[?@.a =~ /(" + run + "/]",
+                "$['a" + "\\\\" * (n // 2), "$[\"" + "\\\"" * (n // 2), "$" + "[" * 50 + run, "$[?" + "(" * 50 + "@.a", "$[?@.a == 1" + ")" * n, "$." + run.replace(" ", ".") + "'", "$[?match(@.a, '" + "(a*)*" * 4 + run]
+    return out
+
+
 def run(spec, ctx):
+    try:
+        run_workload(spec, ctx)
+    except TooManySuspects:
+        ctx.notes.append("workload stopped after 4 watchdog expiries")
+    # confirm watchdog suspects in isolation
+    for case in SUSPECTS[:3]:
+        confirm_hang(ctx, case)
+    ctx.count("raise_events_seen_inside_jsonpath", sum(__import__("rt.mon", fromlist=["x"]).raises_snapshot().values()))
+
+
+def run_workload(spec, ctx):
     r = ctx.rng
     kind = spec["kind"]
     if kind == "query":
@@ -290,6 +325,9 @@ def run(spec, ctx):
                     ops = mutate_ops(r, ops) if (isinstance(ops, list) and all(isinstance(o, dict) for o in ops)) else ops
             patch_case(ctx, ops, [doc] + r.sample(ROOT_DOCS, 3))
     else:
+        for text in long_unterminated():
+            query_case(ctx, text, [[{"a": "abc def_abc"}]])
+            ctx.count("long_unterminated_texts")
         for text in DIRECTED_QUERIES:
             query_case(ctx, text, ROOT_DOCS + [[{"a": v, "b": w} for v in (1, "x", None, [1], {"k": 1}, True, 1.5, "abc") for w in ("abc", [1], {"x": 1}, 2)]])
         for text in ("/#abc", "/a\\", "/\\u00e9", "/\\ud83d", "/\\", "\\", "/%", "/%zz", "/~", "/~2", "a", " /a", "/" + "9" * 30, "/-" + "9" * 30, "/#", "/#-1", "/#1e2", "/a/#", "0#", "0", "1#", "0+1", "0-1", "0+10", "0+99999999999999999999999", "/\x00", "/퟿"):
@@ -298,34 +336,33 @@ def run(spec, ctx):
                     [{"op": "add", "path": "a", "value": 1}], [{"op": "test", "path": "/zz/zz", "value": 1}], [{"op": "move", "from": "/b/5", "path": "/a"}], [{"op": "replace", "path": "/b/-", "value": 1}], [{"op": "remove", "path": "/b/-"}],
                     [{"op": "add", "path": "/b/#0", "value": 1}], [{"op": "remove", "path": "/#a"}], [{"op": "copy", "from": "/b/#1", "path": "/c"}], [{"op": "move", "from": "", "path": "/a/x"}], [{"op": "add", "path": "/" + "9" * 30, "value": 1}]):
             patch_case(ctx, ops, [{"a": {"1": 2}, "b": [1, 2], "1": 0}, {"1": "x"}] + ROOT_DOCS)
-    # confirm watchdog suspects in isolation
-    for case in SUSPECTS[:3]:
-        confirm_hang(ctx, case)
-    ctx.count("raise_events_seen_inside_jsonpath", sum(__import__("rt.mon", fromlist=["x"]).raises_snapshot().values()))
 
 
 def confirm_hang(ctx, case):
-    outdir = os.path.join(os.path.dirname(os.path.dirname(os.path.abspath(__file__))), "out", "C06")
+    """Re-run one suspect alone in a fresh process with a 190 s watchdog."""
+    verif = os.path.dirname(os.path.dirname(os.path.abspath(__file__)))
+    outdir = os.path.join(verif, "out", "C06")
     os.makedirs(outdir, exist_ok=True)
     f = os.path.join(outdir, "suspect-%s.json" % h(repr(case)))
     with open(f, "w") as fh:
         json.dump({"case": case, "mechanism": "hang-suspect"}, fh, default=repr)
-    code = "import faulthandler,sys; faulthandler.dump_traceback_later(190, exit=True); sys.argv=['h','C06','--replay',%r]; import rt.harness as H; H.main()" % f
+    env = dict(os.environ)
+    env["VERIF_C06_WATCHDOG"] = "190"
     try:
-        p = subprocess.run([sys.executable, "-B", "-c", code], cwd=os.path.dirname(outdir.rstrip("/")).rsplit("/out", 1)[0], capture_output=True, timeout=210, text=True)
-        err = p.stderr
-        expired = "Timeout (" in err
+        p = subprocess.run([sys.executable, "-B", "-m", "rt.harness", "C06", "--replay", f], cwd=verif, env=env, capture_output=True, timeout=400, text=True)
+        out = p.stdout
     except subprocess.TimeoutExpired as e:
-        err = (e.stderr or b"").decode() if isinstance(e.stderr, bytes) else (e.stderr or "")
-        expired = True
-    if not expired:
+        out = "WATCHDOG-EXPIRED-IN-ISOLATION stack=[]" + str(e.stdout or "")
+    if "WATCHDOG-EXPIRED-IN-ISOLATION" not in out:
         ctx.count("watchdog_not_confirmed_in_isolation")
         return
-    first = [ln for ln in err.splitlines() if ln.strip().startswith("File ")][:3]
-    if any("/re/" in ln or "sre_" in ln for ln in first):
+    stack = out.split("WATCHDOG-EXPIRED-IN-ISOLATION", 1)[1].splitlines()[0]
+    inner = stack.split(",")[-2:]
+    if any("/re/" in fr or "sre_" in fr or "_parser" in fr or "_compiler" in fr for fr in inner) and "jsonpath/lex.py" not in stack and "tokenize" not in stack:
+        # time inside the regular-expression engine on a caller-supplied pattern
         ctx.count("regex_engine_time_outside_claim")
         return
-    ctx.violation("no-progress-confirmed-in-isolation", case, {"stack": first})
+    ctx.violation("no-progress-confirmed-in-isolation", case, {"stack": stack[:600], "watchdog_s": 190})
 
 
 def finalize(m, tier):
@@ -346,6 +383,15 @@ def finalize(m, tier):
 
 
 def replay(case, ctx):
+    del SUSPECTS[:]
+    _replay(case, ctx)
+    if SUSPECTS:
+        print("WATCHDOG-EXPIRED-IN-ISOLATION stack=%s" % ",".join(LAST_STACK))
+        if os.environ.get("VERIF_C06_WATCHDOG") is None:
+            confirm_hang(ctx, case)
+
+
+def _replay(case, ctx):
     kind = case.get("kind")
     if kind == "query":
         query_case(ctx, case["text"], [case["doc"]] if "doc" in case else case["docs"])
